@@ -18,7 +18,7 @@ which uses a structured syntax for representing conditional statements and belie
 import logging
 import os
 
-from antlr4 import CommonTokenStream, InputStream
+from antlr4 import CommonTokenStream, InputStream, Token
 from antlr4.error.ErrorListener import ErrorListener
 
 from inference.belief_base import BeliefBase
@@ -430,6 +430,7 @@ def parse_formula(string: str):
 
     # Parse formula rule
     tree = parser.formula()
+    _require_end_of_input(tokens)
     visitor = myVisitor()
     # Initialize sigcheck so visitVar can record variables without attribute errors
     visitor.sigcheck = []
@@ -488,7 +489,27 @@ def _getParseTree(ckbs_string):
     parser.addErrorListener(_ThrowingErrorListener())
 
     tree = parser.ckbs()
+    _require_end_of_input(stream)
     return tree
+
+
+def _require_end_of_input(tokens: CommonTokenStream) -> None:
+    """
+    Raise if the start rule stopped before the end of the input.
+
+    The grammar's start rules do not end with EOF, so ANTLR stops silently at the first
+    token that cannot continue the rule and the rest of the text would be ignored
+    (e.g. ``parse_formula("a b")`` returned ``a``). Trailing line breaks are allowed.
+    """
+    token = tokens.LT(1)
+    while token.type == CKBParser.NEWLINE:
+        tokens.consume()
+        token = tokens.LT(1)
+    if token.type != Token.EOF:
+        raise Exception(
+            f"Syntax error at line {token.line}, column {token.column}: "
+            f"unexpected input {token.text!r} after the end of the parsed text"
+        )
 
 
 class _ThrowingErrorListener(ErrorListener):
